@@ -1,5 +1,10 @@
 package main
 
+import (
+	"fmt"
+	"go/types"
+)
+
 // tryReplay turns a solver model into a concrete test of the real code where a replay template exists.
 // Returns "confirmed", "not-confirmed" or "" (no template).
 func tryReplay(eng *Engine, verif, prop string, it *solveItem, rec map[string]any) string {
@@ -27,4 +32,50 @@ func cmdModset(args []string) {
 	for k := range ms.Events {
 		println("  event", k)
 	}
+}
+
+// structuralObligations: every method of the interface that can return an error must be declared on the type itself.
+func (eng *Engine) structuralObligations(s *Structural) []*Obligation {
+	var out []*Obligation
+	pkg := eng.pkgByPath(s.Pkg)
+	mk := func(name, res, why string) *Obligation {
+		return &Obligation{Name: fmt.Sprintf("%s.%s#overrides.%s", pkg.Name(), s.Type, name), Fn: pkg.Name() + "." + s.Type, Kind: "structural",
+			Src: "method " + name + " of " + s.Iface + " is declared on " + s.Type + " itself (not promoted from the embedded field)", Result: res, Solver: "go/types", Model: why}
+	}
+	if pkg == nil {
+		return []*Obligation{{Name: s.Type + "#overrides", Kind: "structural", Result: "error", Model: "package not loaded"}}
+	}
+	tObj, _ := pkg.Scope().Lookup(s.Type).(*types.TypeName)
+	iObj, _ := pkg.Scope().Lookup(s.Iface).(*types.TypeName)
+	if tObj == nil || iObj == nil {
+		return []*Obligation{mk("*", "error", "type or interface not found")}
+	}
+	named, _ := tObj.Type().(*types.Named)
+	iface, _ := iObj.Type().Underlying().(*types.Interface)
+	if named == nil || iface == nil {
+		return []*Obligation{mk("*", "error", "not a named type / interface")}
+	}
+	own := map[string]bool{}
+	for i := 0; i < named.NumMethods(); i++ {
+		own[named.Method(i).Name()] = true
+	}
+	for i := 0; i < iface.NumMethods(); i++ {
+		m := iface.Method(i)
+		sig := m.Type().(*types.Signature)
+		hasErr := false
+		for k := 0; k < sig.Results().Len(); k++ {
+			if types.Identical(sig.Results().At(k).Type(), errorType) {
+				hasErr = true
+			}
+		}
+		if !hasErr {
+			continue
+		}
+		if own[m.Name()] {
+			out = append(out, mk(m.Name(), "unsat", ""))
+		} else {
+			out = append(out, mk(m.Name(), "sat", "counterexample: "+s.Type+" has no method "+m.Name()+" of its own; the embedded "+s.Iface+"'s method is promoted unguarded"))
+		}
+	}
+	return out
 }
